@@ -78,6 +78,7 @@ type family struct {
 	cands []string // every spelling, valid or not
 	vs    []string // spellings accepted by NewVersion
 	rs    []string // instantiated templates accepted by NewVersionRange
+	rx    []string // further constructor texts for NewVersionRange, accepted or not (cut-off ranges)
 }
 
 var prefixRe = regexp.MustCompile(`^[^0-9]{1,12}`)
@@ -329,6 +330,19 @@ func (g *Gen) familyOf(p *prng, name, base string) family {
 		lz := append([]string(nil), comps...)
 		lz[len(lz)-1] = "0" + lz[len(lz)-1]
 		add(pre + join(lz) + suf)
+		if suf != "" {
+			// a trailing number of the suffix dropped, zeroed or doubled: "rc1",
+			// "rc", "rc0", "rc00" (an absent number and a zero are a classic tie)
+			bare := strings.TrimRight(base, "0123456789")
+			if bare != base && len(bare) > len(pre)+len(core) {
+				add(bare)
+				add(bare + "0")
+				add(bare + "00")
+			} else if bare == base {
+				add(base + "0")
+				add(base + "00")
+			}
+		}
 		for _, o := range g.oddSpellings(p, name, base) {
 			add(o)
 		}
@@ -402,12 +416,50 @@ func (g *Gen) familyOf(p *prng, name, base string) family {
 				r := strings.Join(parts, sep)
 				if len(r) <= 200 && tryR(e, r) {
 					f.rs = append(f.rs, r)
+					// a twin that shares every leading part and differs in the
+					// last one only
+					if last := parts[len(parts)-1]; last != "" && len(tm) > 0 {
+						for tries := 0; tries < 6; tries++ {
+							other := fill(p, pickS(p, tm), f.cands)
+							if p.chance(1, 2) {
+								other = pickS(p, f.rs)
+							}
+							if other == last || other == r || (strings.TrimSpace(sep) != "" && strings.Contains(other, strings.TrimSpace(sep))) {
+								continue
+							}
+							r2 := strings.Join(append(append([]string(nil), parts[:len(parts)-1]...), other), sep)
+							if len(r2) <= 200 && tryR(e, r2) {
+								// constructor-only: it reaches the library for the
+								// first time from a task, after its twin was built
+								f.rx = append(f.rx, r2)
+								break
+							}
+						}
+					}
 				}
 			}
 		}
 	}
+	// cut-off ranges: a range text that stops right after an operator or a
+	// separator (what a template with an empty bound produces)
+	for k := 0; k < 4 && len(f.rs) > 0; k++ {
+		r := pickS(p, f.rs)
+		locs := cutRe.FindAllStringIndex(r, -1)
+		if len(locs) == 0 {
+			continue
+		}
+		l := locs[p.n(len(locs))]
+		if l[1] >= len(r) || l[0] == 0 {
+			continue
+		}
+		f.rx = append(f.rx, r[:l[1]])
+	}
 	return f
 }
+
+// cutRe finds the places a range text can be cut off at: after a run of
+// operator characters or after a separator.
+var cutRe = regexp.MustCompile(`[<>=!~^]+|[,|&;]+\s*|\s+`)
 
 var versOps = []string{">=", "<=", ">", "<", "=", "!="}
 
